@@ -15,6 +15,7 @@
 package pubsub
 
 import (
+	"github.com/echovault/sugardb/verifhook"
 	"github.com/gobwas/glob"
 	"github.com/tidwall/resp"
 	"log"
@@ -67,11 +68,13 @@ func (ch *Channel) Start() {
 	go func() {
 		for {
 			message := <-*ch.messageChan
+			verifhook.Yield("pubsub.dequeue")
 
 			ch.subscribersRWMut.RLock()
 
 			for _, conn := range ch.subscribers {
 				go func(conn *resp.Conn) {
+					verifhook.Yield("pubsub.deliver")
 					if err := conn.WriteArray([]resp.Value{
 						resp.StringValue("message"),
 						resp.StringValue(ch.name),
